@@ -173,6 +173,14 @@ func orderSensitive(info *types.Info, fd *ast.FuncDecl, rs *ast.RangeStmt) strin
 						if _, isMap := info.TypeOf(ix.X).Underlying().(*types.Map); isMap {
 							continue // keyed insert
 						}
+						// filling a pre-sized slice by a running index is an append in another
+						// spelling: fine when the slice is sorted afterwards
+						if _, isSl := info.TypeOf(ix.X).Underlying().(*types.Slice); isSl {
+							if _, isID := ast.Unparen(ix.X).(*ast.Ident); isID {
+								appended = append(appended, ix.X)
+								continue
+							}
+						}
 					}
 					if sel, ok := l.(*ast.SelectorExpr); ok && mentions(sel.X) {
 						continue // writes into the element itself
